@@ -16,6 +16,7 @@ package storage
 
 import (
 	"context"
+	encoding "encoding/binary"
 	"os"
 	"time"
 
@@ -156,6 +157,10 @@ func (s *SSD) OnSurvey(surveyType string, payload []byte) ([]byte, bool) {
 
 	// Decode the request
 	var query lookupQuery
+	if !validQuery(payload) {
+		return nil, false
+	}
+
 	if err := binary.Unmarshal(payload, &query); err != nil {
 		return nil, false
 	}
@@ -171,6 +176,27 @@ func (s *SSD) OnSurvey(surveyType string, payload []byte) ([]byte, bool) {
 	f := s.lookup(query)
 	b := f.Encode()
 	return b, true
+}
+
+// validQuery checks that the lengths declared inside an encoded lookup query fit the
+// bytes which follow them, since the decoder allocates for the declared lengths.
+func validQuery(b []byte) bool {
+	if !message.FitsCount(b, 1) {
+		return false
+	}
+
+	// Skip the ssid (its count and words), then 'from' and 'until'
+	n, k := encoding.Uvarint(b)
+	b = b[k:]
+	for i := uint64(0); i < n+2; i++ {
+		if _, k = encoding.Uvarint(b); k <= 0 {
+			return false
+		}
+		b = b[k:]
+	}
+
+	// What follows is the length-prefixed identifier to start from
+	return message.FitsCount(b, 1)
 }
 
 // Lookup performs a against the storage.
